@@ -434,9 +434,9 @@ def codes(stderr):
     return ",".join(cs) if cs else "other"
 
 
-def const_rows(ctx, wd, rows):
+def const_rows(ctx, wd, rows, group_fns=None):
     thorough = ctx["tier"] == "thorough"
-    groups = [f(thorough) for f in GROUPS]
+    groups = [f(thorough) for f in (group_fns or GROUPS)]
     jobs = []
     for g in groups:
         src = os.path.join(wd, f"const_{g.name}.rs")
